@@ -82,7 +82,9 @@ def tighten(draw, name, case):
     elif name == "valid_range":
         lo, hi = case["lo"], case["hi"]
         isdt = case["kind"] == "dt"
-        pick = (lambda a, b: st.integers(int(a), int(b))) if isdt else grid
+        import math
+        # (datetime bounds may lie on half seconds: the nested bound is a whole second inside [a, b], or a itself)
+        pick = (lambda a, b: st.integers(math.ceil(a), math.floor(b)) if math.ceil(a) <= math.floor(b) else st.just(a)) if isdt else grid
         x = [v for v in case["x"] if v is not None]
         ref_lo = lo if lo is not None else (min(x) - 2 if x else 0)
         ref_hi = hi if hi is not None else (max(x) + 2 if x else ref_lo + 4)
